@@ -70,3 +70,11 @@ Print Assumptions C02_canonical_code_is_not_compatible.
 Theorem C02_example : hq_ex_checks 256 /\ hq_ex_checks 512.
 Proof. exact (conj hq_example_256 hq_example_512). Qed.
 Print Assumptions C02_example.
+
+(* Known finding KF-17, as a theorem about the model: growing a code beyond 32 bits faults
+   (`k << l` on u32 overflows; debug panic, wrong codes in optimized builds).  A degenerate
+   frequency profile needs millions of symbols to get there (reproduced by the thorough tier). *)
+Theorem C02_known_finding_code_longer_than_32_bits : forall frag c j l size, 32 <= l ->
+  craft_expand frag c j l size = Fault Overflow.
+Proof. intros frag c j l size H. unfold craft_expand. replace (32 <=? l) with true by (symmetry; apply N.leb_le; exact H). reflexivity. Qed.
+Print Assumptions C02_known_finding_code_longer_than_32_bits.
